@@ -9,7 +9,8 @@ clock and a virtual select (pvf/sim/vsched.py), and hands the event log to the o
 (pvf/ref/schedmodel.py).  A task that raises is additionally compared against the run of the
 same program set where it simply ends there.
 
-case = {"mode": "inline", "hub": "select"|"epoll", "sched_thread": bool, "rand": [k/8...],
+case = {"mode": "inline"|"threaded", "sched": {"base": 0|1, "gaps": [[gap, v]...] | "devs": [[k, v]...]} (threaded only),
+        "hub": "select"|"epoll", "sched_thread": bool, "rand": [k/8...],
         "horizon": seconds, "locks": n, "order": [["task"|"timer", i]...],
         "tasks":  [{"prio": p|None, "form": "sub"|"target", "fast": bool, "prog": [op...]}],
         "timers": [{"t", "recurring", "abs", "self_stop", "rets": [...], "create": "init"|"task", "busy"}],
@@ -34,15 +35,26 @@ LEVEL_TEXT = ("Exploration by generated program sets: every pair of programs of 
               "configurations and of descriptor-readiness instants are enumerated exhaustively, larger sets (<= 5 tasks, sub-task calls, "
               "sockets, locks, timers, priorities) are drawn by Hypothesis. Each run is the real scheduler loop with virtual time, so "
               "never-early / exactly-once / not-late-by-polling are exact statements judged by an oracle that shares no code with recoco. "
-              "Inline select-hub mode only; no claim beyond the explored bounds.")
-LEVEL_NOTE = ("trusts the harness's virtual select (time passes only inside it, it returns exactly the ready descriptors it was given); "
-              "the threaded select-hub mode is not covered by this module yet")
-RULE = ("a case is a program set (tasks x timers x descriptors x schedule choices) enumerated from small grids or drawn by Hypothesis; "
+              "Both select-hub modes: inline (scheduler loop on the calling thread) and threaded (scheduler loop and select hub on their own "
+              "threads under the deterministic thread scheduler: default schedule, every single deviation from it for small scenarios, "
+              "Hypothesis-drawn deviation lists). No claim beyond the explored bounds.")
+LEVEL_NOTE = ("trusts the harness's virtual select (it returns exactly the ready descriptors it was given) and, in the threaded hub mode, "
+              "pvf.sim.detsched's re-implementation of Thread/Event/Lock/select/pinger semantics; thread interleavings are those expressible "
+              "at line boundaries of the traced recoco functions and at blocking primitives")
+RULE = ("a case is a program set (tasks x timers x descriptors x schedule choices x hub mode [x thread schedule]) enumerated from small grids or drawn by Hypothesis; "
         "non-trivial = at least 2 tasks, at least one timed wait (yield n / Sleep / Select or Recv with timeout) that was resumed, and at "
         "least one step of a different task executed between that request and its wake; distinct by SHA-1 of the canonical JSON of the case")
 ASSUMPTIONS = [
-  "inline select hub (startInThread=False, threaded_selecthub=False): Scheduler.run() is driven on the calling thread",
-  "time passes only inside the virtual select and in explicit 'busy' actions; steps take no time otherwise",
+  "mode inline (startInThread=False, threaded_selecthub=False): Scheduler.run() is driven on the calling thread; time passes only inside the "
+  "virtual select and in explicit 'busy' actions",
+  "mode threaded (runThreaded + threaded_selecthub=True under pvf.sim.detsched): one thread runs at a time, switch points are the lines of "
+  "the traced recoco functions and blocking primitives, the next thread is chosen by case['sched']; virtual time passes only when every "
+  "thread is blocked; a 'busy' action blocks the scheduler's thread for its duration (time passing then is not judged); tasks and "
+  "init-time timers are registered from a third (main) thread while the scheduler already runs",
+  "lateness is judged only as 'virtual time passed although something requested was due / ready / runnable' (i.e. it needed the "
+  "CYCLE_MAXIMUM poll or another thread's timeout to be noticed) or 'never resumed'; who runs first at one instant is never judged",
+  "two tasks that Recv on one socket: the loser of the race may get None (EAGAIN) without a timeout",
+  "the raise-vs-end twin comparison is skipped for deviating thread schedules (decision indices of the two runs need not line up)",
   "the virtual select returns exactly the descriptors among those passed that are ready; select.epoll is replaced by a fake below the real EpollSelect",
   "schedule() is only called on a task that is blocked by `yield False` / Sleep(None) and has not been woken yet",
   "locks are only released by their holder; lock exclusion itself is C07's subject, here only the step discipline around locks is judged "
@@ -55,8 +67,12 @@ EXHAUSTIVE_SCOPE = {
   "quick": "all ordered pairs of programs of length 1..2 over {yield 0, yield .25, Sleep(.5), Sleep(absolute), Select([],[],[],.25), yield False, wake, "
            "sub-task call, busy .5, raise}; timer grid (t, one-shot/recurring/absolute, self-stop, return scripts, cancel instants, companion work); "
            "descriptor grid (2 fds x ready instants x timeouts x two selecting tasks x select/epoll); "
-           "lock grid (two tasks, programs of length <= 2 resp. acquire + 2 over {acquire, try-acquire, release, yield 0, yield .25} on one lock)",
-  "thorough": "as quick, plus all triples of programs of length 1 and pairs with one program of length 3, both schedule() paths",
+           "lock grid (two tasks, programs of length <= 2 resp. acquire + 2 over {acquire, try-acquire, release, yield 0, yield .25} on one lock); "
+           "threaded hub: 100 pairs of one-op programs x 3 thread schedules + timer/descriptor grid x 2 schedules, and EVERY single deviation "
+           "from the default thread schedule (each decision point x each alternative thread) of 4 small scenarios",
+  "thorough": "as quick, plus all triples of programs of length 1 and pairs with one program of length 3, both schedule() paths; threaded hub: "
+              "pairs with one program of length <= 2 x 4 schedules, and for 2 scenarios every pair of deviations whose second lies in the "
+              "hub/scheduler hand-off code or at a blocking primitive",
 }
 
 _SM = None
@@ -111,7 +127,8 @@ def run_case(case):
     tlog = runner(tcase)
     tf = _SM.check(tcase, tlog)
     # with a deviating thread schedule the decision indices of the two runs need not line up
-    deviating = mode == "threaded" and bool((case.get("sched") or {}).get("gaps") or (case.get("sched") or {}).get("list"))
+    sc = case.get("sched") or {}
+    deviating = mode == "threaded" and bool(sc.get("gaps") or sc.get("list") or sc.get("devs"))
     if not deviating and not any(f[0] in _STRUCTURAL for f in fails + tf):
       fails += _SM.compare(case, log, tlog)
   for clause, msg, disc in fails:
@@ -236,6 +253,41 @@ def _enum_threaded(tier):
                  "tasks": [{"prog": comp}, {"prog": [{"op": "select", "r": [0, 1], "t": 0.75}, {"op": "select", "r": [0], "w": [1], "t": None}]}]}
 
 
+_PSCN = [
+  {"horizon": 4, "fds": [{"r_at": 0.25}], "timers": [{"t": 0.25}],
+   "tasks": [{"prog": [{"op": "yn", "n": 0.25}, {"op": "y0"}]}, {"prog": [{"op": "select", "r": [0], "t": None}, {"op": "y0"}]}]},
+  {"horizon": 4, "socks": [{"arrivals": [[0.5, 2]], "sends": []}],
+   "tasks": [{"prog": [{"op": "block"}, {"op": "y0"}]},
+             {"prog": [{"op": "sleep", "n": 0.25}, {"op": "wake", "task": 0}, {"op": "recv", "sock": 0, "t": None}]}]},
+  {"horizon": 4, "socks": [{"arrivals": [], "sends": [1, 0, "all"]}],
+   "tasks": [{"prog": [{"op": "call", "sub": _sub([{"op": "sleep", "n": 0.25}])}, {"op": "y0"}]},
+             {"prog": [{"op": "send", "sock": 0, "len": 2}, {"op": "yn", "n": 0.25}]}]},
+  {"horizon": 4, "timers": [{"t": 0.25, "recurring": True, "rets": [None, False]}],
+   "tasks": [{"prog": [{"op": "acquire", "lock": 0}, {"op": "yn", "n": 0.25}, {"op": "release", "lock": 0}]},
+             {"prog": [{"op": "acquire", "lock": 0}, {"op": "select", "t": 0.25}, {"op": "raise"}]}]},
+]
+_HUB_SITES = ("SelectHub._return", "Scheduler.fast_schedule", "SelectHub.idle", "SelectHub.break_idle", "SelectHub.registerSelect",
+              "SelectHub._cycle", "Scheduler.run")
+
+
+def _enum_preempt(tier):
+  """Systematic schedules: every single deviation from the default thread schedule of a few small scenarios
+  (thorough: also every pair of deviations whose second one lies in the hand-off code between hub and scheduler)."""
+  setup()
+  from ..sim import detsched as D
+  for n, scn in enumerate(_PSCN):
+    base = dict(scn, mode="threaded")
+    for d in _VS.probe_decisions(dict(base, sched={})):
+      for v in range(1, d["n"]):
+        yield dict(base, sched={"devs": [[d["k"], v]]})
+    if tier == "thorough" and n < 2:
+      def probe(devs, base=base):
+        return _VS.probe_decisions(dict(base, sched={"devs": [[k, v] for k, v in sorted(devs.items())]}))
+      for devs in D.enumerate_deviations(probe, 2, want=lambda d: d["kind"] != "line" or d["site"].startswith(_HUB_SITES)):
+        if len(devs) == 2:
+          yield dict(base, sched={"devs": [[k, v] for k, v in sorted(devs.items())]})
+
+
 def _enum_locks(tier):
   v = [{"op": "acquire", "lock": 0}, {"op": "acquire", "lock": 0, "blocking": False}, {"op": "release", "lock": 0},
        {"op": "y0"}, {"op": "yn", "n": 0.25}]
@@ -358,7 +410,8 @@ def plan(tier):
       Enum("locks", lambda: _enum_locks("quick"), shards=4),
       Hyp("programs", lambda: _strategy("quick"), examples=4000, shards=16),
       Enum("threaded-grid", lambda: _enum_threaded("quick"), shards=8),
-      Hyp("threaded-programs", lambda: _strategy("quick", "threaded"), examples=400, shards=8),
+      Enum("threaded-preempt", lambda: _enum_preempt("quick"), shards=8),
+      Hyp("threaded-programs", lambda: _strategy("quick", "threaded"), examples=800, shards=8),
     ]
   return [
     Enum("pairs", lambda: _enum_pairs("thorough"), shards=16),
@@ -367,5 +420,6 @@ def plan(tier):
     Enum("locks", lambda: _enum_locks("thorough"), shards=16),
     Hyp("programs", lambda: _strategy("thorough"), examples=300000, shards=16),
     Enum("threaded-grid", lambda: _enum_threaded("thorough"), shards=16),
+    Enum("threaded-preempt", lambda: _enum_preempt("thorough"), shards=16),
     Hyp("threaded-programs", lambda: _strategy("thorough", "threaded"), examples=40000, shards=16),
   ]
